@@ -1,5 +1,5 @@
 //! L-txn: the real `SodiumCtx` transaction bookkeeping with recording closures.
-use sodium_rust::verif::{SodiumCtxData, SodiumCtxImpl};
+use sodium_rust::verif::{IsNode, Node, NodeName, SodiumCtxData, SodiumCtxImpl};
 use std::collections::HashMap;
 use std::io::{BufRead, Write};
 use std::sync::{Arc, Mutex};
@@ -13,6 +13,7 @@ struct M {
     log: Arc<Mutex<Vec<usize>>>,
     scoped: HashMap<String, sodium_rust::Transaction>,
     pub_ctx: sodium_rust::SodiumCtx,
+    nodes: Vec<Node>,
 }
 
 fn push(ctx: &SodiumCtxImpl, defs: &Arc<Mutex<HashMap<usize, ActDef>>>, log: &Arc<Mutex<Vec<usize>>>, i: usize) {
@@ -21,7 +22,10 @@ fn push(ctx: &SodiumCtxImpl, defs: &Arc<Mutex<HashMap<usize, ActDef>>>, log: &Ar
     let body = d.body.clone();
     let k = move || {
         log2.lock().unwrap().push(i);
-        if d.q == 'o' {
+        if d.q == 'e' {
+            // a set-up closure that queues further work while the transaction closes
+            for &b in &body { push(&ctx2, &defs2, &log2, b); }
+        } else if d.q == 'o' {
             // a post closure is an arbitrary nested transaction
             ctx2.enter_transaction();
             for &b in &body { push(&ctx2, &defs2, &log2, b); }
@@ -34,7 +38,7 @@ fn push(ctx: &SodiumCtxImpl, defs: &Arc<Mutex<HashMap<usize, ActDef>>>, log: &Ar
 impl M {
     fn new() -> M {
         let pub_ctx = sodium_rust::SodiumCtx::new();
-        M { ctx: pub_ctx.impl_.clone(), defs: Arc::new(Mutex::new(HashMap::new())), log: Arc::new(Mutex::new(vec![])), scoped: HashMap::new(), pub_ctx }
+        M { ctx: pub_ctx.impl_.clone(), defs: Arc::new(Mutex::new(HashMap::new())), log: Arc::new(Mutex::new(vec![])), scoped: HashMap::new(), pub_ctx, nodes: vec![] }
     }
     fn observe(&self) -> String {
         let (d, e, p, o, a) = self.ctx.with_data(|d: &mut SodiumCtxData| (d.transaction_depth, d.pre_eot.len(), d.pre_post.len(), d.post.len(), d.allow_collect_cycles_counter));
@@ -73,6 +77,30 @@ pub fn run_stdin() -> Result<(), String> {
                 Ok(i) => if m.defs.lock().unwrap().contains_key(&i) { push(&m.ctx, &m.defs, &m.log, i); m.observe() } else { "skip".into() },
                 Err(_) => "bad-op".into(),
             },
+            ["upd", is @ ..] => {
+                // a node queued for the propagation of the open transaction; its update pushes the closures
+                let is: Option<Vec<usize>> = is.iter().map(|s| s.parse::<usize>().ok()).collect();
+                let d = m.ctx.with_data(|d: &mut SodiumCtxData| d.transaction_depth);
+                match is {
+                    Some(is) => {
+                        if d == 0 || is.is_empty() || !is.iter().all(|i| m.defs.lock().unwrap().contains_key(i)) { "skip".into() } else {
+                            let (ctx2, defs2, log2) = (m.ctx.clone(), m.defs.clone(), m.log.clone());
+                            // (update_node runs a node's update only when one of its dependencies has changed)
+                            let src = Node::new(&m.ctx, NodeName::Node(1), || {}, vec![]);
+                            src.data.changed.store(true, std::sync::atomic::Ordering::SeqCst);
+                            let src2 = src.clone();
+                            let node = Node::new(&m.ctx, NodeName::Node(0), move || {
+                                for &i in &is { push(&ctx2, &defs2, &log2, i); }
+                                src2.data.changed.store(false, std::sync::atomic::Ordering::SeqCst);
+                            }, vec![src.box_clone()]);
+                            m.ctx.with_data(|d: &mut SodiumCtxData| d.changed_nodes.push(node.box_clone()));
+                            m.nodes.push(node); m.nodes.push(src);
+                            m.observe()
+                        }
+                    }
+                    None => "bad-op".into(),
+                }
+            }
             ["topen", t] => if m.scoped.contains_key(*t) { "skip".into() } else { let tx = m.pub_ctx.new_transaction(); m.scoped.insert(t.to_string(), tx); m.observe() },
             ["tclose", t] => match m.scoped.get(*t) { Some(tx) => { tx.close(); m.observe() } None => "skip".into() },
             _ => "bad-op".into(),
